@@ -133,9 +133,11 @@ Print Assumptions C11_shared_list_refuted.
 (* ---------------------------------------------------------------------------------- *)
 (* clean-up *)
 
-(* (T) it runs once, before the processing loop of run_to_completion *)
-Theorem C11_cleanup_position_in_source : cleanup_before_loop = true.
-Proof. exact eq_refl. Qed.
+(* (T) it runs once, before the processing loop of run_to_completion; the action table is
+   rebuilt from the action_uids of the remaining flow states (the rule the model transcribes) *)
+Theorem C11_cleanup_position_in_source :
+  cleanup_before_loop = true /\ cleanup_actions_by_reference = true.
+Proof. exact (conj eq_refl eq_refl). Qed.
 Print Assumptions C11_cleanup_position_in_source.
 
 (* it removes only instances that are FINISHED/STOPPED, not activated and strictly older than
